@@ -45,6 +45,9 @@ CHECKS = {
  "C11": ("exploration", "bounded-exhaustive enumeration of implicit/explicit subsets of the default-able facts x origins, differential against the all-explicit model on the real loader",
          "20 default-able facts of the statement, each on its own service: every subset of <=3 facts left implicit and every subset of <=3 written explicitly (thorough: all 2^14 subsets of the first 14) is loaded from the main file, an override file and an included file and must equal the all-explicit model (go-cmp on the whole project). For every fact an explicit non-default value must survive (incl. a declared depends_on entry next to links / service: namespaces / volumes_from in both plain and suffixed spelling); the `default` network must be present iff some service uses it (all 8 usage patterns of 3 services).",
          "Trusted: the explicit spelling of each default in props/c11.go, taken from the statement.", "§4 C11", "E3 E5"),
+ "C12": ("exploration", "bounded-exhaustive enumeration of path attribute x path shape x origin x working-directory shape, against an anchoring reference; non-path positions and idempotence checked differentially",
+         "10 path-bearing attribute kinds x 13 path shapes x 7 origins (main, override, include depth 1 and 2, extended base in another directory, extended base used from an included file, one base shared by the main project and an included project) x 3 working-directory shapes, resolution on (and off for main/override): the loaded value must be exactly what the reference of Appendix A.5 gives (absolute, URL-like for build contexts, Windows-absolute for mounts and secret/config files left alone; ~ expanded; everything else joined with the directory of the file it came from). `./p` placed in 14 non-path positions must never be anchored; re-resolving the rendered model must change nothing.",
+         "Trusted: the reference in props/c12.go. HOME set; relative working directory not exercised.", "§4 C12, App. A.5", "E3 E4 E5"),
 }
 
 NOT_YET = {}
